@@ -48,7 +48,10 @@ Definition status_byte (s : status) : N :=
 (* hash/adler32 of the payload (the harness reports the digest, not the bytes:
    the file bytes themselves are compared in full) *)
 Definition adler32 (l : list N) : N :=
-  let '(a, b) := fold_left (fun '(a, b) x => let a' := (a + x) mod 65521 in (a', (b + a') mod 65521))
+  (* every step keeps a, b < 65521 and adds less than 65521, so one
+     conditional subtraction is the reduction mod 65521 (bytes are < 256) *)
+  let red (x : N) := if 65521 <=? x then x - 65521 else x in
+  let '(a, b) := fold_left (fun '(a, b) x => let a' := red (a + x) in (a', red (b + a')))
                            l (1, 0) in
   b * 65536 + a.
 
